@@ -33,8 +33,20 @@ fn event(n: usize, t: u64, rng: &mut impl Rng, reps: usize) -> Option<Value> {
     let mut enc = vec![];
     let mut dec = vec![];
     let mut polys: Vec<Vec<u64>> = vec![];
-    for v in &vecs {
-        if let Ok(p) = guarded(|| be.encode_new(v)) {
+    // the destination-argument form is handed a used plaintext (a full earlier encoding), the value-returning form a fresh one
+    let mut reused = be.encode_new(&(0..n).map(|i| (i as u64 * 11 + 5) % t).collect::<Vec<_>>());
+    for (vi, v) in vecs.iter().enumerate() {
+        let r = if vi % 2 == 0 {
+            guarded(|| be.encode_new(v))
+        } else {
+            let mut d = reused.clone();
+            let r = guarded(|| be.encode(v, &mut d));
+            r.map(|_| {
+                reused = d.clone();
+                d
+            })
+        };
+        if let Ok(p) = r {
             enc.push(json!({"v": v, "poly": p.data()}));
             polys.push(p.data().clone());
             if let Ok(d) = guarded(|| be.decode_new(&p)) {
@@ -82,7 +94,7 @@ fn event(n: usize, t: u64, rng: &mut impl Rng, reps: usize) -> Option<Value> {
     // coefficient (polynomial) encoding
     let mut coef = vec![];
     for len in [1usize, n / 2, n] {
-        let vals: Vec<u64> = (0..len).map(|i| if i % 2 == 0 { rng.gen::<u64>() >> 34 } else { t + i as u64 }).collect();
+        let vals: Vec<u64> = (0..len).map(|i| match i % 4 { 0 => rng.gen::<u64>() >> 34, 1 => t, 2 => t - 1, _ => t + i as u64 }).collect();
         if let Ok(p) = guarded(|| be.encode_polynomial_new(&vals)) {
             let back = be.decode_polynomial_new(&p);
             coef.push(json!({"vals": vals, "poly": p.data(), "back": back}));
